@@ -114,7 +114,10 @@ def run(ctx):
                         break
                 else:
                     # start sequence complete: frame state, counter 8; noise count reported iff > 0
-                    raw1 = s3.const_of(obj1.elems[an.i_raw].lin)
+                    try:
+                        raw1 = s3.const_of(pending_lin(A, an, s3, obj1))
+                    except Unsupported:
+                        raw1 = None
                     if var != an.v_normal or raw1 != m:
                         key = "completes the start sequence but ends in state #%s with counter %s" % (var, raw1)
                         break
@@ -160,7 +163,11 @@ def run(ctx):
     if not restart or not found_states:
         ctx.violation("BELOW-FLOOR", "R-C08-HANDOFF", where, "hand-off states not found (start found: %d, restart: %d)" % (len(found_states), len(restart)))
     def summary(s, o):
-        return (an.variant_of(s, o), s.const_of(o.elems[an.i_raw].lin), s.const_of(o.elems[an.i_zc].lin),
+        try:
+            pend = s.const_of(pending_lin(A, an, s, o))
+        except Unsupported:
+            pend = None
+        return (an.variant_of(s, o), pend, s.const_of(zc_of(an, o).lin),
                 o.elems[an.i_crc].tag if isinstance(o.elems[an.i_crc], VOpq) else None, s.ghost.get("crc-feed"))
     want = (an.v_normal, m, 0, "crc-digest-fed", (tuple(pat),))
     for nm, lst in (("start-found", found_states[:4]), ("restart", restart)):
